@@ -156,10 +156,13 @@ def run_property(prop, tier="quick", root="/repo/verde", overlay=None, write=Tru
             if _untag(k) not in have:
                 missing.append(k)
         mins = base.get("min_per_rule", {})
-        count = {}
+        # instance counts are taken over distinct rule instances, not over the paths they were found on (a refactor that merges or splits
+        # branches changes the number of paths, not the number of instances)
+        per = {}
         for o in obs:
             if not o.soft:
-                count[o.rule] = count.get(o.rule, 0) + 1
+                per.setdefault(o.rule, set()).add(_untag(o.key))
+        count = {r: len(v) for r, v in per.items()}
         for r, n in mins.items():
             if count.get(r, 0) < n:
                 missing.append("%s: %d instances found, baseline confirms %d" % (r, count.get(r, 0), n))
